@@ -72,6 +72,12 @@ class PresGen:
             parent("name")
             if inlineable:
                 parent("inline", inline=True)
+            if ft.kind == "opt" and shape == "named":
+                # `#[ts(optional)]`: `f?: U` by name and inlined
+                for onull in ("opt", "nullable"):
+                    parent(f"name-optional-{onull}", optional=onull)
+                    if inlineable:
+                        parent(f"inline-optional-{onull}", inline=True, optional=onull)
             flat_ok = shape in ("named", "variant", "tagged-only") and kind == "user" and it.kind in ("named", "enum") and not (it.kind == "named" and it.tag)
             if flat_ok:
                 parent("flat", flatten=True)
